@@ -42,6 +42,7 @@ vars == <<reg, out>>
 
 States   == {"valid", "revoked"}
 NoEntry  == [st |-> "none", b |-> 0]
+Foreign  == -1      \* body of an entry that holds a certificate of ANOTHER owner / serial (observed states only)
 Entry    == [st : States, b : Bodies] \cup {NoEntry}
 InitReg  == [o \in Owners |-> [s \in Serials |-> NoEntry]]
 Filters  == [o : Owners \cup {""}, s : Serials \cup {""}, st : States \cup {""}]
@@ -257,6 +258,15 @@ QComplete(r, q) ==
                 /\ Cardinality(occ) = 1
                 /\ \A i \in occ : items[i].rs = s /\ items[i].st = r[o][s].st /\ items[i].b = r[o][s].b
 
+\* "found by owner and serial": a lookup by owner and serial (the keeper's GetCertificateByID, the listing with
+\* both owner and serial set) yields nothing but the certificate registered under that owner and serial
+QLookupExact(r, q) ==
+    (q.ok /\ (q.k = "get" \/ (q.k = "list" /\ IsDirect(q.f)))) =>
+        LET items == Flat(q.pages) IN
+        \A i \in DOMAIN items :
+            /\ items[i].o = q.f.o /\ items[i].s = q.f.s
+            /\ Registered(r, q.f.o, q.f.s) /\ items[i].b = r[q.f.o][q.f.s].b
+
 TypeOK ==
     /\ reg \in [Owners -> [Serials -> Entry]]
     /\ out.k \in {"init", "create", "revoke"} \cup QueryKinds
@@ -269,7 +279,7 @@ Prop_Steps == [][StepProps(reg, reg', out')]_vars
 
 \* the query clauses as an action property (what a query step leaves in out'): TLC evaluates it on every
 \* generated successor, also when the ghost variable out is hidden by a VIEW
-QProps(r, q) == QTotal(q) /\ QComplete(r, q)
+QProps(r, q) == QTotal(q) /\ QComplete(r, q) /\ QLookupExact(r, q)
 Prop_Queries == [][out'.k \in QueryKinds =>
                       /\ QProps(reg', out')
                       /\ [ok |-> out'.ok, pages |-> out'.pages] = SpecRes(reg', out')]_vars
